@@ -14,19 +14,23 @@
 //	           n instances (startup once(n)); shared 1 = one RPS schedule for the pool, 0 = per instance;
 //	           ammo = number of ammo (-1 endless); tokens = once(tokens) (-1 = unlimited 1h schedule);
 //	           fault = none|prov|aggr|gun|warm|sched|bind|panic|provnil|aggrnil at position k, or a REAL provider:
-//	           dopen|dopenlate|ddecode|dok|jsonbad|httpbad (see realProvider);
+//	           dopen|dopenlate|ddecode|dok|jsonbad|httpbad (see realProvider), gj-<poison>-<passes>-<limit>-<coe>-<maxsize>
+//	           (the real grpc/json provider on k good lines, a broken element, `ammo` good lines; gate 1 = short reads; see gjPlan);
 //	           optional 9th field: the VALUE of the prov/aggr error (plain|wdeadline|wcancel|fmtcancel|nettimeout|joined);
 //	           gate 1 = provider/aggregator fail only once their context is cancelled
 //	           ("after all instances finished"); ctxret 1 = provider/aggregator return ctx.Err() on cancel.
 //
 // Observation line:
 //
-//	R=<nil|ctx|f.<cause>|hang> W=<0|1> G=<0|1> C=<guns created> L=<guns closed> T=<history tokens, comma separated>
+//	R=<nil|ctx|f.<cause>|hang> W=<0|1> G=<0|1> K=<n|-> N=<n> Q=<..> A=<..> C=<guns created> L=<guns closed> T=<history tokens, comma separated>
+//	K: Provider.Run / Aggregator.Run / Gun.Shoot calls of this run that had not returned when Engine.Wait returned;
+//	N: Provider.Run + Aggregator.Run calls made; Q: per pool what Provider.Run returned; A: per pool number of Shoot calls
 //
 // History tokens (global order of the engine's log, see ocaml/C05/main.ml):
 //
 //	X0 / X1 the caller's cancel() is about to be called / has returned; <p>.pre.<ok|gun|warm|sched>; <p>.P.<e>.<s|u>; <p>.A.<e>.<s|u>; <p>.S.<n>.<e>.<s|u>;
-//	<p>.R.<id>.<e>.<s|u>; <p>.!<cause> (a mock is about to fail); <p>.sf; <p>.fc; <p>.fz; E.<p>; E.c; E.ret
+//	<p>.R.<id>.<e>.<s|u>; <p>.!<cause> (a mock is about to fail); <p>.src (the ammo file handed its broken element to the
+//	provider); <p>.sf; <p>.fc; <p>.fz; E.<p>; E.c; E.ret
 //	<e> = nil|ctx|ooa|f.<cause>; s = error sent to Run, u = "Error suppressed after run cancel".
 package main
 
@@ -45,6 +49,7 @@ import (
 
 	pkgerrors "github.com/pkg/errors"
 	"github.com/spf13/afero"
+	"github.com/yandex/pandora/components/providers/grpc/grpcjson"
 	phttp "github.com/yandex/pandora/components/providers/http"
 	phttpconf "github.com/yandex/pandora/components/providers/http/config"
 	"github.com/yandex/pandora/core"
@@ -168,6 +173,7 @@ type mockProvider struct {
 func (p *mockProvider) Run(ctx context.Context, deps core.ProviderDeps) error {
 	defer p.pm.rs.enter(true)()
 	err := p.run(ctx, deps)
+	p.pm.provRes.Store(classifyComp(err, "prov"))
 	windDown(ctx, p.plan)
 	return err
 }
@@ -260,7 +266,123 @@ func (r reportingProvider) Run(ctx context.Context, deps core.ProviderDeps) erro
 	if err != nil && !(ctx.Err() != nil && pkgerrors.Cause(err) == ctx.Err()) {
 		r.pm.fault("prov")
 	}
+	r.pm.provRes.Store(classifyComp(err, "prov"))
 	return err
+}
+
+// ---- the grpc/json provider on a file with a broken element ----
+
+// gjPlan is the fault name gj-<poison>-<passes>-<limit>-<coe>-<maxsize> of a pool whose provider is the REAL
+// grpcjson.Provider reading a file of k good lines, the poison, then `ammo` more good lines:
+//
+//	poison  none | json (a line that does not decode) | io (the file's Read fails at that offset, on every pass) |
+//	        long (a line longer than the scanner's buffer: maxsize bytes, 0 = bufio.MaxScanTokenSize)
+type gjPlan struct {
+	poison  string
+	passes  int
+	limit   int
+	coe     bool
+	maxSize int
+}
+
+func parseGJ(fault string) (gjPlan, bool) {
+	f := strings.Split(fault, "-")
+	if len(f) != 6 || f[0] != "gj" {
+		return gjPlan{}, false
+	}
+	at := func(i int) int { v, _ := strconv.Atoi(f[i]); return v }
+	return gjPlan{poison: f[1], passes: at(2), limit: at(3), coe: f[4] == "1", maxSize: at(5)}, true
+}
+
+var errIO = errors.New("verif: read of the ammo file failed")
+
+const gjGoodLine = "{\"tag\":\"t\",\"call\":\"pkg.Service.Method\",\"metadata\":{\"k\":\"v\"},\"payload\":{\"a\":1}}\n"
+
+// poisonFile is the ammo file as the provider sees it. It reports (into the engine's log: token <p>.src) the
+// moment at which the broken element is handed over to the reader: the Read that fails (io), the Read after which
+// the reader holds more of the over-long line than its buffer takes (long), the whole undecodable line (json).
+type poisonFile struct {
+	afero.File
+	pm      *poolMocks
+	kind    string
+	off     int64
+	at      int64 // offset of the broken element
+	handed  int64 // offset after which it counts as handed over (long, json)
+	said    bool  // reported in this pass
+	chunked bool  // hand the data out in small pieces (reads end at arbitrary places)
+}
+
+func (f *poisonFile) Read(b []byte) (int, error) {
+	if f.kind == "io" {
+		if f.off >= f.at {
+			f.pm.rs.log.Info("verif-src", zap.Int("p", f.pm.idx))
+			return 0, errIO
+		}
+		if int64(len(b)) > f.at-f.off {
+			b = b[:f.at-f.off]
+		}
+	}
+	if f.chunked && len(b) > 37 {
+		b = b[:37]
+	}
+	n, err := f.File.Read(b)
+	f.off += int64(n)
+	if (f.kind == "long" || f.kind == "json") && !f.said && f.off >= f.handed {
+		f.said = true
+		f.pm.rs.log.Info("verif-src", zap.Int("p", f.pm.idx))
+	}
+	return n, err
+}
+
+func (f *poisonFile) Seek(off int64, whence int) (int64, error) {
+	r, err := f.File.Seek(off, whence)
+	if err == nil {
+		f.off = r
+		f.said = r >= f.handed && f.said
+	}
+	return r, err
+}
+
+type poisonFs struct {
+	afero.Fs
+	mk func(afero.File) afero.File
+}
+
+func (p poisonFs) Open(name string) (afero.File, error) {
+	f, err := p.Fs.Open(name)
+	if err != nil {
+		return nil, err
+	}
+	return p.mk(f), nil
+}
+
+func gjProvider(pm *poolMocks, pl poolPlan, g gjPlan) core.Provider {
+	maxTok := 64 * 1024
+	if g.maxSize > 0 {
+		maxTok = g.maxSize
+	}
+	var sb strings.Builder
+	sb.WriteString(strings.Repeat(gjGoodLine, pl.k))
+	at := int64(sb.Len())
+	handed := at
+	switch g.poison {
+	case "json":
+		sb.WriteString("{\"tag\": broken\n")
+		handed = int64(sb.Len())
+	case "long":
+		sb.WriteString("{\"tag\":\"" + strings.Repeat("x", maxTok+maxTok/8) + "\"}\n")
+		handed = at + int64(maxTok)
+	}
+	if pl.ammo > 0 {
+		sb.WriteString(strings.Repeat(gjGoodLine, pl.ammo))
+	}
+	mem := afero.NewMemMapFs()
+	_ = afero.WriteFile(mem, "ammo.json", []byte(sb.String()), 0o644)
+	fs := poisonFs{Fs: mem, mk: func(f afero.File) afero.File {
+		return &poisonFile{File: f, pm: pm, kind: g.poison, at: at, handed: handed, chunked: pl.gate}
+	}}
+	conf := grpcjson.Config{File: "ammo.json", Limit: g.limit, Passes: g.passes, ContinueOnError: g.coe, MaxAmmoSize: g.maxSize}
+	return grpcjson.NewProvider(fs, conf)
 }
 
 type anAmmo struct {
@@ -310,7 +432,11 @@ func realProvider(pm *poolMocks, pl poolPlan) core.Provider {
 		}
 		inner = p
 	default:
-		return nil
+		g, ok := parseGJ(pl.fault)
+		if !ok {
+			return nil
+		}
+		inner = gjProvider(pm, pl, g)
 	}
 	return reportingProvider{Provider: inner, pm: pm}
 }
@@ -385,6 +511,7 @@ type poolMocks struct {
 	schedCalls atomic.Int64
 	bindCalls  atomic.Int64
 	shoots     atomic.Int64
+	provRes    atomic.Value // what Provider.Run returned (class), unset while it has not returned
 }
 
 type mockGun struct {
@@ -592,6 +719,8 @@ func history(all []observer.LoggedEntry, npools int, plans []poolPlan) []string 
 			cancels++
 		case "verif-fault":
 			out = append(out, fmt.Sprintf("%d.!%s", fieldInt(e, "p"), fieldStr(e, "what")))
+		case "verif-src":
+			out = append(out, fmt.Sprintf("%d.src", fieldInt(e, "p")))
 		case "verif-pre-fail":
 			pp := fieldInt(e, "p")
 			preDone[pp] = true
@@ -652,8 +781,10 @@ func runCase(line string) string {
 		rs.cancelAt, _ = strconv.Atoi(cancelPlan[5:])
 	}
 	var conf engine.Config
+	var pms []*poolMocks
 	for i, pl := range plans {
 		pm := &poolMocks{idx: i, plan: pl, rs: rs}
+		pms = append(pms, pm)
 		idx := i
 		prov := &mockProvider{pm: pm, plan: pl, trigger: make(chan struct{})}
 		aggr := &mockAggregator{pm: pm, plan: pl, trigger: make(chan struct{})}
@@ -757,7 +888,18 @@ func runCase(line string) string {
 	if w {
 		k = strconv.FormatInt(rs.begun.Load()-endedAtWait, 10)
 	}
-	return fmt.Sprintf("R=%s W=%s G=%s K=%s N=%d C=%d L=%d T=%s", res, vh.B(w), vh.B(settled), k, rs.compRuns.Load(), rs.created.Load(), rs.closed.Load(), strings.Join(toks, ","))
+	// Q: what each pool's Provider.Run returned; A: the number of Shoot calls of each pool
+	var q, a []string
+	for _, pm := range pms {
+		if v, ok := pm.provRes.Load().(string); ok {
+			q = append(q, v)
+		} else {
+			q = append(q, "-")
+		}
+		a = append(a, strconv.FormatInt(pm.shoots.Load(), 10))
+	}
+	return fmt.Sprintf("R=%s W=%s G=%s K=%s N=%d Q=%s A=%s C=%d L=%d T=%s", res, vh.B(w), vh.B(settled), k, rs.compRuns.Load(),
+		strings.Join(q, ","), strings.Join(a, ","), rs.created.Load(), rs.closed.Load(), strings.Join(toks, ","))
 }
 
 // ---- generator ----
@@ -920,6 +1062,42 @@ func gen(r *vh.Rand, tier string) []string {
 				}
 				out = append(out, line)
 			}
+		}
+		// the real grpc/json provider on a file with a broken element (an undecodable line, a failing Read, a line
+		// longer than the scanner's buffer) at every position, under every way the configuration ends the reading
+		// (passes 1..3, a limit below / at / above the position, both); the schedule is unlimited: only the
+		// provider decides when the pool is out of ammo
+		gjCase := func(poison string, passes, limit, k, m int) {
+			maxSize := 0
+			if poison == "long" && r.Bool() {
+				maxSize = r.PickInt([]int{256, 1024})
+			}
+			ft := fmt.Sprintf("gj-%s-%d-%d-%s-%d", poison, passes, limit, vh.B(poison == "json" && r.Chance(1, 3)), maxSize)
+			p := poolPlan{n: r.Range(1, 3), shared: r.Bool(), ammo: m, tokens: -1, fault: ft, k: k, gate: r.Bool()}
+			line := "run " + r.Pick([]string{"none", "none", "none", "after"}) + " " + poolStr(p)
+			if r.Chance(1, 4) {
+				line += " " + poolStr(healthy)
+			}
+			out = append(out, line)
+		}
+		for _, poison := range []string{"io", "long", "json", "none"} {
+			for _, passes := range []int{1, 1, 2, 3, 0} {
+				k, m := r.Range(0, 5), r.Range(0, 3)
+				if poison == "none" && k+m == 0 {
+					k = 1
+				}
+				limit := 0
+				switch {
+				case passes == 0:
+					limit = r.Range(1, 8)
+				case r.Chance(1, 3):
+					limit = r.PickInt([]int{k, k + 1, k + m + 1, r.Range(1, 12)})
+				}
+				gjCase(poison, passes, limit, k, m)
+			}
+			// position 0 (before the first ammo) and the very end of the file
+			gjCase(poison, 1, 0, 0, r.Range(1, 3))
+			gjCase(poison, r.Range(1, 2), 0, r.Range(1, 5), 0)
 		}
 		// random plans
 		nr := 40
